@@ -98,9 +98,9 @@ theorem run_stop_prefix (s : Nat) (bs : List Nat) : ∀ (m : M),
           · cases h1
       rw [h1, h2]; exact List.prefix_refl _
 
-theorem C03_chunk_events_prefix (s : Nat) (bs : List Nat) :
-    evsOf (parseBody (some s) bs) <+: evsOf (parseBody none bs) :=
-  run_stop_prefix s bs {}
+theorem C03_chunk_events_prefix (s : Nat) (bs : List Nat) (nl : Bool) :
+    evsOf (parseBody (some s) bs nl) <+: evsOf (parseBody none bs nl) :=
+  run_stop_prefix s bs (initM nl)
 
 /-- appending concatenates the time tables of two finished encoders -/
 theorem C03_append_table (c : Codec) (a b e : Enc) (ha : Inv a) (hb : Inv b)
